@@ -651,8 +651,6 @@ class C20:
             if out == inp:
                 return
             self._judge_converter('cli-' + mode, ref, got, out, faulted, add_v, check_target, bump, probes)
-            if status == 'returned' and op['verbose'] and ref[0] == 'ok' and 'Converted' not in so:
-                add_v('cli-output', 'cli-output/no-converted-line', 'a "Converted:" line', so[:100])
             frame_check(before, {out}, 'cli-single', set())
             return
         # ---- directory mode
@@ -672,10 +670,15 @@ class C20:
         status, so, se = run_cli(argv)
         faulted = fault_state() != f0
         log.emit('client', 'cli-dir', argv, [status, len(inputs)])
+        # an input counts as reported when stderr mentions it - absolute, as given, or by name (the wording is not part of C20)
         reported_paths = set()
-        for line in se.split('\n'):
-            if line.startswith('Error converting '):
-                reported_paths.add(absolute(line[len('Error converting '):].split(': ', 1)[0]))
+        for p0 in inputs:
+            rel = posixpath.join(op['input'], p0[len(inp.rstrip('/')) + 1:])
+            unique_name = sum(1 for q in inputs if posixpath.basename(q) == posixpath.basename(p0)) == 1 and \
+                sum(1 for q in inputs if posixpath.basename(p0) in posixpath.basename(q)) == 1
+            if (p0 + ':') in se or (p0 + ' ') in se or (rel + ':') in se or (rel + ' ') in se or se.rstrip().endswith(p0) or \
+                    (unique_name and posixpath.basename(p0) in se):
+                reported_paths.add(p0)
         if status != 'returned' and not faulted:
             add_v('cli-dir-aborted', f'cli-dir-aborted/{mode}', 'returns after converting what can be converted', status, stderr=se[:200])
         targets = set()
